@@ -1,1 +1,9 @@
--- stub: no theorems of C04 yet
+import WmModel.Props.C04
+import WmModel.Props.C11
+#print axioms Wm.GcSub.redelivery_only_after_nack
+#print axioms Wm.GcSub.at_most_one_live_copy
+#print axioms Wm.GcSub.delivery_uses_fresh_copy
+#print axioms Wm.GcSub.unsettled_copy_has_live_sender
+#print axioms Wm.GcSub.nack_means_resend
+#print axioms Wm.GcSub.one_unsettled_inv
+#print axioms Wm.GcTopic.mid_publish
